@@ -339,10 +339,18 @@ def chain_groups(rng, count, names=None, f64=False):
     """(chain W(A), stand-alone A) pairs; the replay cases are built after running them"""
     names = names or ALL_UNARY
     pairs = []
-    for i in range(count):
-        name = names[i % len(names)]
+    plan = []
+    if count == "all":
+        # thorough: every unary wrapper over every inner view of the chain catalogue
+        for name in names:
+            for inner in (INNERS_POS if name in POSITIVE_ONLY else INNERS):
+                plan.append((name, inner))
+    else:
+        for i in range(count):
+            name = names[i % len(names)]
+            plan.append((name, rng.choice(INNERS_POS if name in POSITIVE_ONLY else INNERS)))
+    for (name, inner) in plan:
         pos = name in POSITIVE_ONLY
-        inner = rng.choice(INNERS_POS if pos else INNERS)
         if inner[0] == "LnReturn":
             pos = True
         d = mk_view(rng, name, inner)
@@ -362,14 +370,18 @@ def mk_view_over_echo(d):
 # ---------------------------------------------------------------------------------- C01
 def run_C01(rng, tier):
     k = scale(tier)
-    pairs = chain_groups(rng, len(ALL_UNARY) * (2 if tier == "quick" else 6))
+    pairs = chain_groups(rng, len(ALL_UNARY) * 2) if tier == "quick" else chain_groups(rng, "all") + chain_groups(rng, len(ALL_UNARY) * 3)
     cases = [c for p in pairs for c in p[:2]]
     # binary combinators: value only when both children have one
     kids = INNERS + [E, ("Rsi", 3, E), ("Ss", 2, E)]
     bgroups = []
-    for i in range(16 * k):
-        op = ["Add", "Sub", "Mul", "Div"][i % 4]
-        a, b = rng.choice(kids), rng.choice(INNERS_POS if op == "Div" else kids)
+    bplan = [(["Add", "Sub", "Mul", "Div"][i % 4], None, None) for i in range(16)]
+    if tier == "thorough":
+        # every binary combinator over every ordered pair of child views
+        bplan = [(op, a, b) for op in ("Add", "Sub", "Mul", "Div") for a in kids for b in (INNERS_POS if op == "Div" else kids)]
+    for (op, a, b) in bplan:
+        if a is None:
+            a, b = rng.choice(kids), rng.choice(INNERS_POS if op == "Div" else kids)
         d = (op, a, b)
         reg, xs = stream_for(rng, d)
         if needs_positive(d) or "LnReturn" in d_views(d):
@@ -877,7 +889,7 @@ def run_C15(rng, tier):
         fc = [Case(c.desc, c.ops, dict(c.meta, model=False, mode="f64", profile=prof)) for c in cases]
         for name in ALL_UNARY:
             lo = WINDOWED.get(name, {"Roofing": 2, "Pfe": 3, "Eft": 2}.get(name, 1))
-            for n in ([lo, 2, 3, 13, 64] if tier == "quick" else list(range(lo, 65, 3))):
+            for n in ([lo, 2, 3, 13, 64] if tier == "quick" else list(range(lo, 65))):
                 if n < lo:
                     continue
                 d = mk_view(rng, name, n=n)
